@@ -34,6 +34,11 @@
 (***************************************************************************)
 EXTENDS Gen_File
 
+\* TLC orders record fields by first mention while parsing (root module first): the kind field `k` must come
+\* before the payload fields so that object values of different kinds are unequal without their payloads
+\* ever being compared (a function-valued `v` against a sequence-valued one is a TLC evaluation error).
+KindFirst_Adversary(o) == <<o.k, o.neg, o.v, o.w>>
+
 CONSTANTS Mode,       \* "producer" | "seeds"
           MaxMut,     \* adversary steps per round
           Rounds      \* rounds per behaviour (plus round 0: the legal input)
